@@ -72,7 +72,11 @@ def evaluate(src, cid, prop, tier, props):
         if p.returncode != 0:
             meta['apply_error'] = p.stderr[-400:]
             return meta
-        t = sh(['/venv/bin/python', '-m', 'pytest', '-q', '-p', 'no:cacheprovider', '--timeout=900'], cwd=wt)
+        for attempt in range(4):
+            t = sh(['/venv/bin/python', '-m', 'pytest', '-q', '-p', 'no:cacheprovider', '--timeout=900'], cwd=wt)
+            if t.returncode == 0 or 'Address already in use' not in (t.stdout + t.stderr) and attempt >= 1:
+                break
+            time.sleep(3 + attempt * 5)       # the networking tests use fixed ports: another suite may be running
         last = t.stdout.strip().splitlines()[-1] if t.stdout.strip() else ''
         meta['test_suite_with_patch'] = {'exit': t.returncode, 'last_line': last}
         for junk in ('chain.db', 'test.db', 'wallet.json'):
